@@ -25,7 +25,7 @@ def regInsert (reg : Registry) (d : Desc) : Registry :=
 def needsRegister (reg : Registry) (d : Desc) : Bool :=
   match lookup reg d.name d.hash with
   | none => true
-  | some d' => if Gen.writerGuardKind == "descriptor-comparison" then !(d' == d) else false
+  | some d' => if Gen.writerGuardKind == "descriptor-comparison" then !(decide (d' = d)) else false
 
 /-- descriptors (in encounter order) that get registered and written while packing `obj` -/
 def newDescs (reg : Registry) : List Desc → Registry × List Desc
@@ -38,12 +38,12 @@ def newDescs (reg : Registry) : List Desc → Registry × List Desc
 
 /-- `RecordStreamWriter.write(obj)`: header first if needed, descriptor frames (written re-entrantly while the
     object is being packed), then the object's own frame. `none` = packing raised. -/
-def write (st : WState) (obj : PV) : Option (WState × List Bytes) := do
+def write (st : WState) (obj : PV) : Option (WState × List Bytes) :=
   let header := if st.headerWritten then [] else [magicBody]
-  let (reg', ds) := newDescs st.registry (descsOf obj)
-  let dframes ← ds.mapM (fun d => (toM (.desc d)).map enc)
-  let body ← (toM obj).map enc
-  pure ({ headerWritten := true, registry := reg' }, header ++ dframes ++ [body])
+  let r := newDescs st.registry (descsOf obj)
+  match r.2.mapM (fun d => (toM (.desc d)).map enc), (toM obj).map enc with
+  | some dframes, some body => some ({ headerWritten := true, registry := r.1 }, header ++ dframes ++ [body])
+  | _, _ => none
 
 def writeAll (st : WState) : List PV → Option (WState × List Bytes)
   | [] => some (st, [])
@@ -53,6 +53,43 @@ def writeAll (st : WState) : List PV → Option (WState × List Bytes)
     pure (st2, f1 ++ f2)
 
 def streamOf (frames : List Bytes) : Bytes := frames.flatMap frameBytes
+
+/-! ### abstract frame view (C03): what a history of writes emits and what a reader makes of it,
+    before any byte encoding -/
+
+inductive AFrame where
+  | desc : Desc → AFrame
+  | obj : PV → AFrame
+  deriving Repr, BEq
+
+/-- frames of one `write` after the header: descriptor frames for what gets registered, then the object -/
+def emit (reg : Registry) (o : PV) : Registry × List AFrame :=
+  let r := newDescs reg (descsOf o)
+  (r.1, r.2.map AFrame.desc ++ [AFrame.obj o])
+
+def emitAll (reg : Registry) : List PV → Registry × List AFrame
+  | [] => (reg, [])
+  | o :: os =>
+    let r1 := emit reg o
+    let r2 := emitAll r1.1 os
+    (r2.1, r1.2 ++ r2.2)
+
+/-- the reader on abstract frames: descriptor frames are registered; for every object frame, the descriptors with
+    which its records (own, nested, grouped members — in `descsOf` order) are decoded -/
+def consume (reg : Registry) : List AFrame → List (PV × List (Option Desc))
+  | [] => []
+  | .desc d :: fs => consume (regInsert reg d) fs
+  | .obj o :: fs => (o, (descsOf o).map (fun d => lookup reg d.name d.hash)) :: consume reg fs
+
+/-- registry of the reader after a frame list -/
+def consumeReg (reg : Registry) : List AFrame → Registry
+  | [] => reg
+  | .desc d :: fs => consumeReg (regInsert reg d) fs
+  | .obj _ :: fs => consumeReg reg fs
+
+/-- no two *different* descriptors inside one object share an identifier -/
+def NoInnerCollision (ds : List Desc) : Prop :=
+  ∀ a ∈ ds, ∀ b ∈ ds, a.name = b.name → a.hash = b.hash → a = b
 
 /-! ### reader -/
 
